@@ -98,6 +98,17 @@ def explore(tier, seed):
         tequal += not found
         for kind, detail in found:
             cands.setdefault(f"seq|{'>'.join(ks)}|{kind}", ({"sequence": True, "seq": list(ks), "kind": kind}, detail))
+    # SAST-driven pairs (result files unchanged between the chained invocations, as in the one invocation)
+    spairs, shit, swall = seqspace.explore_sast_pairs(tier, seed)
+    sequal = 0
+    for key, rec in sorted(spairs.items()):
+        states.add(core.tree_state_id(rec["files"]))
+        for t in [rec["batch"]["tree"]] + [c["tree"] for c in rec["chain"]]:
+            states.add(core.tree_state_id({k: v for k, v in t.items() if isinstance(v, bytes)}))
+        found = list(judge(rec))
+        sequal += not found
+        for kind, detail in found:
+            cands.setdefault(f"seq|{'>'.join(rec['seq'])}|{kind}", ({"sequence": True, "sast": list(key), "kind": kind}, detail))
     # the whole default set: one invocation vs the chain of single-codemod invocations in the executed order
     druns, dhit, dwall = seqspace.explore_default_set(tier, seed)
     dlen = 0
@@ -127,7 +138,10 @@ def explore(tier, seed):
     changed_by_both = sum(1 for r in pairs.values() if r["chain"][0]["tree"] != r["files"] and r["chain"][1]["tree"] != r["chain"][0]["tree"])
     coverage = {
         "states": len(states),
-        "transitions": 3 * len(pairs) + 4 * len(triples) + len(druns) * (dlen + 1),
+        "transitions": 3 * len(pairs) + 4 * len(triples) + 3 * len(spairs) + len(druns) * (dlen + 1),
+        "sast_ordered_pairs": len(spairs),
+        "sast_pairs_with_equal_outcome": sequal,
+        "sast_cache_hit": shit,
         "default_set_histories": {"runs": len(druns), "codemods_in_sequence": dlen, "cache_hit": dhit, "wall_s": round(dwall, 1)},
         "traces_validated_against_impl": len(pairs) + len(triples) + 6 * len(new),
         "ordered_triples": len(triples),
@@ -153,6 +167,10 @@ def explore(tier, seed):
 
 
 def replay(rp):
+    if "sast" in rp:
+        rec = seqspace.sast_pair_job(tuple(rp["sast"]))
+        found = list(judge(rec))
+        return (rp["kind"] not in {k for k, _ in found}), "\n".join(f"{k}: {d}" for k, d in found) or "one run == chain of single runs"
     if "default_set" in rp:
         rec = seqspace.default_set_job(("--max-workers", "4") if rp["default_set"] else ())
         found = []
